@@ -114,3 +114,63 @@ MINS = {"linear": [None],
         "cubic": [None, dict(min_bin_width=0.02, min_bin_height=0.005), dict(min_bin_width=0.002, min_bin_height=0.03)],
         "rq": [None, dict(min_bin_width=0.02, min_bin_height=0.005, min_derivative=0.05),
                dict(min_bin_width=0.001, min_bin_height=0.06, min_derivative=0.01)]}     # both orders: height minimum below / above the width minimum
+
+
+def modules(seed):
+    """the four Piecewise*CDF modules (parameters in single precision, as constructed), bounded and with linear tails"""
+    from nflows.transforms import nonlinearities as nl
+    out = []
+    for fam, cls in (("linear", nl.PiecewiseLinearCDF), ("quadratic", nl.PiecewiseQuadraticCDF), ("cubic", nl.PiecewiseCubicCDF),
+                     ("rq", nl.PiecewiseRationalQuadraticCDF)):
+        for tails, B in ((None, 1.0), ("linear", 3.0), ("linear", 0.7)):
+            torch.manual_seed(seed % 100000 + 5)
+            out.append((fam, tails, B, cls([3], num_bins=4, tails=tails, tail_bound=B)))
+    return out
+
+
+def module_double_inputs(ck, seed, what):
+    """double-precision inputs handed to the (single-precision) modules.  what = "tails": outside the tail bound the transformer is
+    exactly the identity on the numbers it was given, and an input just outside the bound is outside; what = "domain": an input just
+    outside the box of a bounded module is rejected.  Calls the unchanged code rejects for mixed dtypes are counted, not reported."""
+    for fam, tails, B, t in modules(seed):
+        for dname in ("forward", "inverse"):
+            tag = "%s:%s" % (fam, dname)
+            if what == "tails" and tails:
+                x = torch.tensor([[12345.678901234, -B * (1 + 1e-9), 0.5 * B], [B * (1 + 1e-9), 1e6 + 0.123456789, -0.2 * B], [-B - 1e-7, 2.0 * B + 1e-9, 0.0]],
+                                 dtype=torch.float64)
+                ck.case(("module-double", fam, B, dname), nontrivial=True)
+                case = {"search": "module-double-inputs", "family": fam, "tail_bound": B, "direction": dname, "inputs": x.tolist(), "seed": seed}
+                with torch.no_grad():
+                    r = attempt(getattr(t, dname), x)
+                if r[0] != "ok":
+                    ck.count("module-double-inputs-raise:%s:%s" % (tag, r[1]))
+                    continue
+                y, lad = r[1]
+                out = x.abs() > B
+                if not torch.equal(y[out].double(), x[out]):
+                    i = int(torch.nonzero((y.double() != x) & out)[0][0])
+                    ck.finding("spline-tails:not-identity-outside:%s" % tag,
+                               "Piecewise%sCDF module (tail bound %g), float64 inputs: rows %s -> %s outside the bound"
+                               % (fam, B, x[i].tolist(), y[i].tolist()), case)
+                    continue
+                # the log-determinant: only the inside elements contribute
+                with torch.no_grad():
+                    xin = torch.where(out, torch.full_like(x, 10.0 * B), x)
+                    r2 = attempt(getattr(t, dname), xin)
+                if r2[0] == "ok" and not close(r2[1][1].double().tolist(), lad.double().tolist(), 1e-5):
+                    ck.finding("spline-tails:logabsdet-outside-not-zero:%s" % tag, "float64 inputs %s" % x.tolist(), case)
+            if what == "domain" and not tails:
+                for val in (1.0 + 1e-9, -1e-50, 1.0 + 3e-8, -1e-12):
+                    for pos in (0, 2):
+                        x = torch.tensor([[0.5, 0.25, 0.75], [0.1, 0.2, 0.3]], dtype=torch.float64)
+                        x[1, pos] = val
+                        ck.case(("module-double-domain", fam, dname, val, pos), nontrivial=True)
+                        case = {"search": "module-double-inputs", "family": fam, "direction": dname, "value": val, "position": pos, "seed": seed}
+                        with torch.no_grad():
+                            r = attempt(getattr(t, dname), x)
+                        if not (r[0] == "err" and r[1] == "InputOutsideDomain"):
+                            if r[0] == "err":
+                                ck.count("module-double-inputs-raise:%s:%s" % (tag, r[1]))
+                                continue
+                            ck.finding("domain:out-of-domain-accepted:%s" % tag,
+                                       "Piecewise%sCDF module on [0,1], float64 input %r at position %d -> %s" % (fam, val, pos, r[1][0][1].tolist()), case)
